@@ -168,6 +168,7 @@ type fnCtx struct {
 	inlineDepth int
 	inlineStack []*ssa.Function
 	aliasOf map[string]Val
+	noDef    bool // terms under a quantifier: no top-level abbreviations
 	aliasOff map[string]string // offset of a reslice x[lo:..] in its source
 	aliasCell map[*ssa.Alloc]Val
 	freshRefs map[string]bool
@@ -187,7 +188,7 @@ func (fc *fnCtx) fresh(prefix, sort string) string {
 }
 
 func (fc *fnCtx) def(sort, term string) string {
-	if len(term) < 48 {
+	if len(term) < 48 || fc.noDef {
 		return term
 	}
 	fc.nfresh++
@@ -348,7 +349,7 @@ func (fc *fnCtx) fieldAddr(base *Addr, i int) *Addr {
 		if key := strings.Replace(name, "!", ".", 1); fc.e.db.immutable[key] {
 			fn := "|F!" + name + "|"
 			fc.declFun(fn, "(V) "+s)
-			return &Addr{kind: aImm, ref: base.ref, hv: fn, hsort: s, typ: ft, prefix: key}
+			return &Addr{kind: aImm, ref: base.ref, hv: fn, hsort: s, typ: ft, prefix: key, meta: f.Embedded() && f.Name() == "ObjectMeta"}
 		}
 		return &Addr{kind: aHeap, ref: base.ref, hv: "|H!" + name + "|", hsort: s, typ: ft, meta: f.Embedded() && f.Name() == "ObjectMeta"}
 	case aHeap, aCell, aElem, aImm:
@@ -529,6 +530,10 @@ func (fc *fnCtx) addrAsVal(a *Addr, t types.Type) Val {
 	switch a.kind {
 	case aStruct:
 		return Val{T: a.ref, S: "V", Ty: t}
+	case aImm:
+		if a.meta && len(a.sel) == 0 {
+			return Val{T: a.ref, S: "V", Ty: t} // &obj.ObjectMeta of an API object: identified with the object (as for heap fields)
+		}
 	case aPath, aHeap:
 		if a.meta && len(a.sel) == 0 {
 			return Val{T: a.ref, S: "V", Ty: t}
